@@ -692,6 +692,7 @@ func (c *admCase) doOp(op string) string {
 		if len(f) > 3 {
 			if strings.HasPrefix(f[3], "L") { // L<n>: n bytes of URL parameters
 				q = "?p=" + strings.Repeat("x", admInt(f[3][1:]))
+			} else if strings.HasPrefix(f[3], "w") { // w<k>: the k-th write of the server shell on this connection fails, and every later one
 			} else {
 				q = "?" + f[3] + "=1"
 			}
@@ -699,6 +700,9 @@ func (c *admCase) doOp(op string) string {
 		s := &admSess{name: name, kind: f[0], stream: stream(1), conn: newAdmConn("10.0.0.1:" + f[2])}
 		c.sess[name] = s
 		c.cur = s
+		if len(f) > 3 && strings.HasPrefix(f[3], "w") {
+			s.conn.failWritesFrom(admInt(f[3][1:]))
+		}
 		c.startShell(s, false)
 		s.conn.feed(rtmpClientScript("live", stream(1)+q, f[0] == "rp"))
 		r := s.conn.waitIdle(s.done)
@@ -733,10 +737,13 @@ func (c *admCase) doOp(op string) string {
 			return "x"
 		}
 		q := ""
-		if len(f) > 3 {
+		if len(f) > 3 && !strings.HasPrefix(f[3], "w") {
 			q = f[3] + "=1"
 		}
 		s := &admSess{name: name, kind: f[0], stream: stream(1), conn: newAdmConn("10.0.0.2:" + f[2])}
+		if f[0] == "ap" && len(f) > 3 && strings.HasPrefix(f[3], "w") { // ap.<stream>.<sid>.w1: the response to ANNOUNCE cannot be written
+			s.conn.failWritesFrom(admInt(f[3][1:]))
+		}
 		s.mates = &[]*admSess{s}
 		c.sess[name] = s
 		c.cur = s
@@ -752,6 +759,9 @@ func (c *admCase) doOp(op string) string {
 		case "idle":
 			if f[0] == "ap" {
 				c.waitSdpOf(stream(1), name)
+			}
+			if f[0] == "ap" && len(f) > 3 && strings.HasPrefix(f[3], "w") {
+				c.waitConnClosed(s.conn) // the failed response write closes the connection (write queue of the command session)
 			}
 			return "a"
 		case "done":
@@ -801,10 +811,16 @@ func (c *admCase) doOp(op string) string {
 		if s == nil || s.kind != "ds" || s.gone || s.conn.isClosed() {
 			return "x"
 		}
+		if len(f) > 2 && f[2] == "w" { // pl.<sid>.w: the response to PLAY cannot be written
+			s.conn.failWritesFrom(1)
+		}
 		s.conn.feed(rtspRequest("PLAY", s.stream, "", 2, ""))
 		r := s.conn.waitIdle(s.done)
 		switch r {
 		case "idle":
+			if len(f) > 2 && f[2] == "w" {
+				c.waitConnClosed(s.conn)
+			}
 			return "a"
 		case "done":
 			s.connDone()
@@ -1516,6 +1532,18 @@ func (k *admCorkConn) readAfterFlush() int {
 	k.mu.Lock()
 	defer k.mu.Unlock()
 	return k.after
+}
+
+// a write that fails on a connection with a write queue closes the connection from the queue's goroutine
+func (c *admCase) waitConnClosed(conn *admConn) {
+	deadline := time.Now().Add(admWaitDur())
+	for !conn.isClosed() {
+		if time.Now().After(deadline) {
+			c.anomalies = append(c.anomalies, "write-fail-not-closed")
+			return
+		}
+		time.Sleep(50 * time.Microsecond)
+	}
 }
 
 // admBusyPort binds a udp or tcp port and holds it: a start_rtp_pub that asks for this port cannot listen.
